@@ -35,9 +35,13 @@ BLOCKS = ["blk1", "blk2", "blk3"]
 UPOOL = ["U1", "U2", "U3"]
 REF_ROW_TYPES = ["add_to_group", "remove_from_group", "split_by_group", "start_new_flow"]
 KIND_OF_ROW = {"add_to_group": "G", "remove_from_group": "G", "split_by_group": "G", "start_new_flow": "F"}
+# rows that an edge with condition_type=has_group may leave (besides split_by_group): the test lands on the row's own
+# switch router (wait_for_response, split_by_value), on the router of a no_op decision, or on a switch router created
+# behind an action node (send_message, add_to_group) — operand "@input.text" or the condition_var, never "@contact.groups"
+ROUTER_ROW_TYPES = ["wait_for_response", "split_by_value", "no_op", "send_message", "add_to_group"]
 PLAIN_TYPES = ["send_message", "save_value", "save_flow_result", "set_contact_language", "wait_for_response"]
 
-FLOW_HEADERS = ["row_id", "type", "from", "condition", "loop_variable", "include_if", "message_text", "save_name",
+FLOW_HEADERS = ["row_id", "type", "from", "condition", "condition_var", "condition_type", "loop_variable", "include_if", "message_text", "save_name",
                 "obj_id", "data_sheet", "data_row_id", "template_arguments"]
 INDEX_HEADERS = ["type", "sheet_name", "data_sheet", "data_row_id", "new_name", "data_model", "template_arguments",
                  "status", "group"]
@@ -154,13 +158,41 @@ def gen_wb(rng, malformed=False, big=False):
             children.append([c, ch])
         return {"t": "split", "name": name, "obj_id": oid, "children": children}
 
+    def router(env_vars, rtype=None):
+        """a row of any type with conditional edges, some of them has_group tests"""
+        rtype = rtype or rng.choice(ROUTER_ROW_TYPES)
+        var = "@fields.age" if rtype == "no_op" else rng.choice(["", "@fields.age"]) if rtype in ("send_message", "add_to_group") else ""
+        name, oid = "text", ""
+        if rtype == "add_to_group":
+            name = rng.choice(groups)
+            oid = uu("G", name)
+        children, seen = [], set()
+        for _ in range(rng.choice([1, 2, 2, 3])):
+            if rng.random() < 0.7:
+                if env_vars and rng.random() < 0.3:
+                    c = "{{grp}}" if "grp" in env_vars else "{{ga}}"
+                else:
+                    c = rng.choice(groups)
+                ct = "has_group"
+            else:
+                c, ct = rng.choice(["yes", "no", "g1"]), rng.choice(["", "has_phrase"])
+            if (c, ct) in seen or ("{{" in c and seen):     # add_choice merges a case with equal type and arguments
+                continue
+            seen.add((c, ct))
+            ch = ref_row(env_vars, 9) if rng.random() < 0.4 else plain_row()
+            ch["include"] = ""
+            children.append([c, ct, ch])
+        return {"t": "router", "rtype": rtype, "var": var, "name": name, "obj_id": oid, "children": children}
+
     def items(env_vars, depth, block_pool, n=None):
         out = []
         n = n if n is not None else rng.choice(([1, 2, 3, 4] if depth else [2, 3, 4, 5, 6]) if big else ([1, 1, 2] if depth else [1, 2, 3, 4]))
         for _ in range(n):
             r = rng.random()
-            if r < 0.40:
+            if r < 0.30:
                 out.append(ref_row(env_vars, depth))
+            elif r < 0.42:
+                out.append(router(env_vars))
             elif r < 0.55:
                 out.append(split(env_vars))
             elif r < 0.65:
@@ -280,11 +312,11 @@ class _Emit:
             self.add(row_id=r, type="send_message", **{"from": self.tail[0], "condition": self.tail[1]}, message_text="sep")
             self.tail, self.plain_tail = (r, ""), True
 
-    def row(self, it, frm=None):
+    def row(self, it, frm=None, ctype="", cvar=""):
         r = self.rid()
         frm = frm or self.tail
         kw = dict(row_id=r, type=it["type"], **{"from": frm[0], "condition": frm[1]}, include_if=it.get("include", ""),
-                  obj_id=it["obj_id"])
+                  obj_id=it["obj_id"], condition_type=ctype, condition_var=cvar)
         ty = it["type"]
         if ty in KIND_OF_ROW:
             kw["message_text"] = it["name"]
@@ -317,6 +349,17 @@ class _Emit:
                 for case, ch in it["children"]:
                     last = (self.row(ch, frm=(r, case)), ch["type"])
                 self.tail, self.plain_tail = last[0], False
+                self.sep()
+            elif t == "router":
+                self.sep()
+                r = self.rid()
+                rt = it["rtype"]
+                self.add(row_id=r, type=rt, **{"from": self.tail[0], "condition": self.tail[1]}, obj_id=it["obj_id"],
+                         message_text={"wait_for_response": "", "split_by_value": "@fields.age", "no_op": ""}.get(rt, it["name"]))
+                last = (r, "")
+                for cond, ctype, ch in it["children"]:
+                    last = self.row(ch, frm=(r, cond), ctype=ctype, cvar=it["var"])
+                self.tail, self.plain_tail = last, False
                 self.sep()
             elif t == "insert":
                 self.sep()
@@ -431,6 +474,19 @@ def expand_items(wb, its, env, in_block, route):
             out.append(["row", "split_by_group", _subst(it["name"], env), _subst(it["obj_id"], env),
                         [_subst(c, env) for c, _ in it["children"]], in_block, route])
             out += expand_items(wb, [ch for _, ch in it["children"]], env, in_block, route)
+        elif t == "router":
+            tests = []
+            for c, ct, _ in it["children"]:
+                c = _subst(c, env)
+                # SwitchRouter.add_choice: a case with the same type and arguments exists already -> only the
+                # destination is updated ("{{grp}}" and a literal name may denote the same group)
+                if ct == "has_group" and c not in tests:
+                    tests.append(c)
+            if it["rtype"] in KIND_OF_ROW:
+                out.append(["row", it["rtype"], _subst(it["name"], env), _subst(it["obj_id"], env), tests, in_block, route])
+            else:
+                out.append(["row", it["rtype"], "", "", tests, in_block, route])
+            out += expand_items(wb, [ch for _, _, ch in it["children"]], env, in_block, route)
         elif t == "insert":
             benv = {}
             if it["data"]:
@@ -1032,6 +1088,45 @@ def directed_wbs():
                     wb["flows"]["fb"] = [{"t": "row", "type": "start_new_flow", "name": "ext1", "obj_id": other, "include": ""}]
                     wb["campaigns"] = [{"name": "camp1", "group": "g1", "events": [{"type": "F", "flow": "ext1"}]}]
                     wb["triggers"] = [{"flow": "ext1", "groups": [], "exclude": []}]
+                out.append(wb)
+    return out
+
+
+def directed_test_wbs():
+    """a has_group condition on an edge leaving every kind of row x every route x (the test is the only mention of the
+    group | an add_to_group row of another sheet gives the group an obj_id, campaign and trigger name it too)"""
+    out = []
+    plain = {"t": "row", "type": "send_message", "name": "x", "obj_id": "", "include": ""}
+    for rtype in ROUTER_ROW_TYPES:
+        for route in ("sheet", "begin_block", "for", "insert", "insert-nested", "insert-in-for"):
+            for mode in ("only", "explicit"):
+                item = {"t": "router", "rtype": rtype, "var": "@fields.age" if rtype == "no_op" else "",
+                        "name": "g2" if rtype == "add_to_group" else "text", "obj_id": "",
+                        "children": [["yes", "", dict(plain)], ["g1", "has_group", dict(plain)]]}
+                wb = {"malformed": False, "groups": ["g1", "g2"], "blocks": {}, "flows": {}, "campaigns": [], "triggers": [],
+                      "data_rows": [], "flow_defs": [{"sheet": "fa", "data": None, "new_name": ""}, {"sheet": "fb", "data": None, "new_name": ""}],
+                      "two_readers": False, "via_files": False, "ops": ["P", "R", "R"], "directed": f"has_group-edge@{rtype}/{route}/{mode}"}
+                if route == "sheet":
+                    fa = [item]
+                elif route == "begin_block":
+                    fa = [{"t": "group", "items": [item]}]
+                elif route == "for":
+                    fa = [{"t": "for", "var": "x", "values": ["1", "2"], "items": [item]}]
+                else:
+                    ins = {"t": "insert", "block": "blk1", "data": None, "args": []}
+                    fa = [{"t": "for", "var": "x", "values": ["1", "2"], "items": [ins]}] if route == "insert-in-for" else [ins]
+                    if route == "insert-nested":
+                        wb["blocks"]["blk1"] = {"needs_data": False, "items": [{"t": "insert", "block": "blk2", "data": None, "args": []}]}
+                        wb["blocks"]["blk2"] = {"needs_data": False, "items": [item]}
+                    else:
+                        wb["blocks"]["blk1"] = {"needs_data": False, "items": [item]}
+                wb["flows"]["fa"] = fa
+                if mode == "explicit":
+                    wb["flows"]["fb"] = [{"t": "row", "type": "add_to_group", "name": "g1", "obj_id": designated("G", "g1"), "include": ""}]
+                    wb["campaigns"] = [{"name": "camp1", "group": "g1", "events": [{"type": "F", "flow": "fa"}]}]
+                    wb["triggers"] = [{"flow": "fa", "groups": ["g1"], "exclude": []}]
+                else:
+                    wb["flows"]["fb"] = [dict(plain)]
                 out.append(wb)
     return out
 
